@@ -9,7 +9,9 @@ PROPS="${*:-$(python3 -c "import json;print(json.load(open('$DIR/meta.json'))['b
 git -C /repo apply "$PATCH" || { echo "patch does not apply"; exit 2; }
 trap 'git -C /repo checkout -- . ; git -C /repo status --porcelain | head -3' EXIT
 for P in $PROPS; do
-  OUT=$(cd /verif && ./check "$P" --tier "${TIER:-quick}" 2>&1); RC=$?
-  echo "--- $NAME vs $P: exit $RC"
-  echo "$OUT" | grep -E "VIOLATION|KNOWN-FINDING|INCONCLUSIVE|^  rule" | cut -c1-300 | head -6
+ for SD in ${SEEDS:-1}; do
+  OUT=$(cd /verif && ./check "$P" --tier "${TIER:-quick}" --seed "$SD" 2>&1); RC=$?
+  echo "--- $NAME vs $P (seed $SD): exit $RC"
+  echo "$OUT" | grep -E "VIOLATION|INCONCLUSIVE|^  rule" | cut -c1-300 | head -${LINES_SHOWN:-4}
+ done
 done
